@@ -24,6 +24,19 @@ def cases(tier, rng):
         seq = fqgen.random_schedule(rng, n, rng.randint(5, 50), removes=(rng.random() < 0.4))
         out.append("f%d fq / %s / D" % (k, " / ".join(seq)))
         k += 1
+    # a stream that yields (wakes the waker it is polled with and returns Pending, as tokio's cooperative budgeting does):
+    # poll_next must return (Pending, receiver woken) instead of spinning, and the next call delivers
+    for n in (1, 2, 3):
+        for pos in range(n):
+            labs = ["I%d" % s_ for s_ in range(1, n + 1)]
+            for s_ in range(1, n + 1):
+                labs += ["A%d.%d" % (s_, s_ * 100 + i) for i in range(2)]
+            labs += ["P:%d~Y" % pos] + ["P"] * (2 * n + 1)
+            out.append("y%d fq / %s / D" % (k, " / ".join(labs)))
+            k += 1
+            labs2 = ["I%d" % s_ for s_ in range(1, n + 1)] + ["P", "A1.7", "W1", "P:%d~Y" % pos, "P:0~Y", "P", "P"]
+            out.append("y%d fq / %s / D" % (k, " / ".join(labs2)))
+            k += 1
     # a stream is removed (peer_disconnected) while the others have items queued / events pending
     for n in (2, 3, 4):
         for victim in range(1, n + 1):
@@ -113,6 +126,8 @@ def judge(line, obs, orc):
             if p.startswith("I"):
                 inserted.add(int(p[1:]))
     toks = obs.split()
+    if obs.startswith("hang"):
+        return "poll_next does not return (spins) when a stream yields"
     if any("spin" in t for t in toks):
         return "poll_next spins"
     left = toks[-1]
